@@ -593,7 +593,17 @@ class Interp:
         raise Unsupported("with statement")
 
     def st_FunctionDef(self, s, f):
-        raise Unsupported("nested function definition")
+        """a nested function: a closure over the defining frame.  The enclosing locals are READ through the live frame (Python's
+        late binding); a nested function that rebinds an enclosing name (nonlocal) is outside the subset"""
+        if s.decorator_list:
+            raise Unsupported("decorated nested function")
+        for n in ast.walk(s):
+            if isinstance(n, (ast.Nonlocal, ast.Global)):
+                raise Unsupported("nested function with nonlocal/global")
+        fv = FuncVal(f.func.module if f.func else f.module, s, cls=None)
+        fv.qualname = (f.func.qualname if f.func else f.module.name) + ".<locals>." + s.name
+        fv.enclosing = f
+        f.locals[s.name] = fv
 
     def st_Match(self, s, f):
         subj = self.eval(s.subject, f)
@@ -790,6 +800,16 @@ class Interp:
                 return v
             if n in _assigned_names(f.func.node):
                 raise PyExc("UnboundLocalError", "cannot access local variable '%s' where it is not associated with a value" % n)
+            enc = getattr(f.func, "enclosing", None)
+            while enc is not None:
+                if n in enc.locals:
+                    v = enc.locals[n]
+                    if v is UNBOUND:
+                        raise PyExc("NameError", "cannot access free variable '%s' where it is not associated with a value in enclosing scope" % n)
+                    return v
+                if enc.func is not None and n in _assigned_names(enc.func.node):
+                    raise PyExc("NameError", "cannot access free variable '%s' where it is not associated with a value in enclosing scope" % n)
+                enc = getattr(enc.func, "enclosing", None) if enc.func is not None else None
         elif f.func is None and n in f.locals:
             return f.locals[n]
         g = f.module.globals if f.module else {}
@@ -1362,6 +1382,8 @@ def _assigned_names(fn):
         def visit_FunctionDef(self, n):
             if n is fn:
                 self.generic_visit(n)
+            else:
+                names.add(n.name)        # a nested def binds its name in the enclosing scope
 
         def visit_Lambda(self, n):
             pass
